@@ -62,6 +62,47 @@ fn main() {
         };
         std::process::exit(code);
     }
+    if args.len() >= 3 && args[1] == "gen-seeds" {
+        // small committed seed corpora for the libFuzzer targets (provenance: generated once, seed 1)
+        use vcore::refcodec::ref_encode;
+        let d = std::path::Path::new(&args[2]);
+        for t in ["parse_total", "parse_diff", "roundtrip"] {
+            std::fs::create_dir_all(d.join(t)).unwrap();
+        }
+        let repo_vectors: Vec<Vec<u8>> = vec![
+            vec![1, 1, 0, 0, 0, 0, 0, 0, 3],
+            vec![1, 1, 0, 0, 0, 0, 0, 0, 4, 0x21, 0, 4, b't', b'e', b's', b't', 0, 4, 0x12, 0x34, 0x56, 0x78, 3],
+            vec![1, 1, 0, 0, 0, 0, 0, 0, 4, 0x21, 0, 4, b't', b'e', b's', b't', 0, 4, 0x12, 0x34, 0x56, 0x78, 0x21, 0, 0, 0, 4, 0x77, 0x65, 0x43, 0x21, 3],
+            vec![1, 1, 0, 0, 0, 0, 0, 0, 4, 0x34, 0, 4, b'c', b'o', b'l', b'l', 0, 0, 0x4a, 0, 0, 0, 4, b'a', b'b', b'c', b'd', 0x21, 0, 0, 0, 4, 0x22, 0x22, 0x22, 0x22, 0x37, 0, 0, 0, 0, 3],
+        ];
+        let mut n = 0;
+        for v in &repo_vectors {
+            for t in ["parse_total", "parse_diff"] {
+                std::fs::write(d.join(t).join(format!("repo-{n}")), v).unwrap();
+            }
+            n += 1;
+        }
+        for (i, w) in draw(1, "seeds-w", &vcore::gen::w_msg(4), 30).into_iter().enumerate() {
+            let b = ref_encode(&w);
+            if b.len() <= 2000 {
+                for t in ["parse_total", "parse_diff"] {
+                    std::fs::write(d.join(t).join(format!("w-{i}")), &b).unwrap();
+                }
+            }
+        }
+        for (i, m) in draw(1, "seeds-m", &vcore::gen::m_msg(3), 30).into_iter().enumerate() {
+            let mut b = m.build().to_bytes().to_vec();
+            b.extend_from_slice(&m.payload);
+            if b.len() <= 2000 {
+                std::fs::write(d.join("parse_total").join(format!("m-{i}")), &b).unwrap();
+            }
+        }
+        for (i, r) in draw(1, "seeds-r", &proptest::collection::vec(proptest::prelude::any::<u8>(), 200..1500), 16).into_iter().enumerate() {
+            std::fs::write(d.join("roundtrip").join(format!("r-{i}")), &r).unwrap();
+        }
+        println!("seeds written");
+        return;
+    }
     if args.len() >= 3 && args[1] == "gen-fixtures" {
         c12::gen_fixtures(&args[2]).expect("fixtures");
         println!("fixtures written to {}", args[2]);
